@@ -67,3 +67,33 @@ claim("C18",
       "typestate (seal/mutate) dataflow with interprocedural mutates-parameter summaries, per-iteration must-facts, value-identity checks of ingest wiring",
       "Index coverage: entry sets are never mutated after being sealed; every block appended to a file had its entries merged into the file-level set first (copied blocks: every row re-indexed) and file filters are built after the last block; block filters come from the set that indexed the block's rows; the indexing callback records a field entry per emission and token + field:token per token on both tokenizer paths, and the sized filter adds every entry; rows are grouped under PartitionFunc(row), buffers registered under their own partition, and (min,max) of row[index] feed the row's own buffer unswapped. The walker's enumeration itself is value-level and not decided.",
       TB)
+
+claim("C01",
+      "who-may-call/ownership scans, sibling-agreement provenance checks, and abstract interpretation of the prune-level and row-level expression evaluators on all small trees × leaf truth assignments (E5), plus SSA path rules on the pruning points",
+      "Structural necessary conditions of 'no false negatives': one shared walker and leaf canonicaliser for indexing and verification (reference enumerator unreachable from production), entry sets written only by the indexing functions and filters built only from them; indexing and verification gate the same fast tokenizer path on the same configured tokenizer and delimiter; the pruning verdict is ≥ the row verdict for every small bloom tree and every leaf assignment, absent filters fail open, the regex field guard is at least as permissive as the compiled regex matcher and tests existence of the condition's own field; files/blocks are skipped only on a negative verdict and a chunk miss is an error. Walker/tokenizer value semantics, chunk arithmetic and hashing are not decided.",
+      TB + " The abstract interpreter (absint.go) is part of the trusted base: it aborts (undecided) on any branch not determined by the abstract inputs.")
+
+claim("C02",
+      "SSA path/event dataflow on the scan loop, flush and deliver (counter domain), channel-ownership scans, abstract interpretation of the prefilter evaluator and the compiled matcher on constant and small trees",
+      "Row-level exactness through structure: only rows on the true edge of matchRowBytes reach the batcher, materialised from the same scanned bytes; rowChan has one sender/closer chain; each batch is cleared before hand-off, sent at most once per path and exactly once before a nil return, counted once per send; the strict prefilter table (nil/empty/unknown/missing-metadata cases, And = all, Or = any) and the compiled matcher's And/Or/constant semantics hold on every small tree and assignment. Multiset equality against an oracle is not decided.",
+      TB)
+
+claim("C03",
+      "value provenance of the materialisation argument, identifier-use scan for package unsafe, who-may-call scans, typestate (released-buffer) dataflow, defer-order check",
+      "Independence of returned rows (second sentence of the property): rows are materialised from a copying string conversion; package unsafe is confined to unsafeString, called only by indexing and matching, which return only verdicts; no instruction uses a pooled buffer after putScanBuffer on any path (locals kept in memory tracked by cell); the scan's buffer release is deferred before the batch flush's defer and never called directly; the pooled reader is used only by the query scan and filters are decoded by copying. JSON round-trip equality (first sentence) is not decided.",
+      TB)
+
+claim("C04",
+      "reflect.Kind dispatch-table extraction (E5), order-domain abstract interpretation over all total preorders (E6), dominance check of conversion guards, SSA path rule for NaN",
+      "Prefilters never prune a satisfying block, decided where it is structural: numeric classification covers every integer/unsigned/float reflect.Kind (named types; repaired defect D1); EvaluateMinMaxCondition returns true for every ordering of {⊥, Min, Max, ⊤, operands, v} consistent with range construction in which v satisfies the operator (all 10 operators incl. 0–2 element IN/NOT_IN lists, saturation at both extremes, v beyond the int64 range) — exhaustive over that finite domain; EvaluateString/NumericCondition equal the operator's meaning; UpdateMinMaxIndex = (min,max); clampUint64ToInt64 = min(v,⊤); every overflow-capable conversion sits behind range guards, NaN is rejected before rounding, floats index as [Floor, Ceil]; strict prefilter table and And/Or combination by abstract interpretation. Float boundary arithmetic at 2^63 is not decided.",
+      TB)
+
+claim("C26",
+      "value provenance of the bloom constructor's arguments and who-may-call scan",
+      "Sizing provenance only: the sole filter constructor is buildSizedBloomFilter with capacity max(len(entries),1) of the very map it inserts and the rate parameter; all four call chains pass the validated config.BloomFalsePositiveRate; nothing else constructs or fills a filter. The measured false-positive rate is statistical and not decided.",
+      TB)
+
+claim("C27",
+      "who-may-reference scan over every call site and global reference of the package (with a positive control), field-store provenance of the engine logger",
+      "Silence by default: no function of the package references os.Stdout/os.Stderr, fmt.Print*, print/println, package log or slog's package-level logging functions; the logger field is written only by the constructor (config.Logger on its non-nil edge, slog.New(slog.DiscardHandler) otherwise) and every slog call goes through it. Runtime panics and third-party debug output are excluded.",
+      TB)
